@@ -24,7 +24,7 @@ type revalParams struct {
 // Events: G<k> = GET with client conditional kind k; X = advance to 1 s past the model's
 // expiry; Y = advance to 1 s before it; B = origin content changes; F404/F500 = the
 // origin answers the next request with that status.
-var revalAlphabet = []string{"G0", "G1", "G2", "G3", "G4", "G5", "X", "Y", "B", "F404", "F500"}
+var revalAlphabet = []string{"G0", "G1", "G2", "G3", "G4", "G5", "X", "Y", "B", "F404", "F500", "f503"}
 
 var revalSchemes = []string{"etag", "lm", "both", "none", "weak"}
 
@@ -151,11 +151,14 @@ func runRevalCase(c *vrun.Ctx, env *penv, scheme string, hist []string, defaultA
 			res.Force = 404
 		case ev == "F500":
 			res.Force = 500
+		case ev == "f503":
+			res.ForceOnce = 503 // a transient error: only the next upstream request fails
 		case ev[0] == 'G':
 			now := vtime.Peek()
 			forced := res.Force
 			resp, reqs := env.do("GET", uri, clientConditional(ev, now), "")
 			res.Force = 0
+			res.ForceOnce = 0
 			fresh := st != nil && now.Before(st.expiresAt) && !mustContactNext
 			stale := st != nil && !fresh
 			if st != nil && now.Equal(st.expiresAt) && !mustContactNext {
@@ -244,6 +247,16 @@ func runRevalCase(c *vrun.Ctx, env *penv, scheme string, hist []string, defaultA
 					pattern += "m"
 					if resp.Status != 200 || len(resp.Body) != 24 || !vnet.IsSlice([]byte(resp.Body), vnet.Candidate{R: name, V: res.Version, N: 24}, 0) {
 						report("200-wrong-answer", fmt.Sprintf("step %d: origin answered 200 with version %d but the client got status %d / another body (%s)", step, res.Version, resp.Status, resp.Err))
+					}
+					viaFallback := false
+					for _, rq := range reqs[:len(reqs)-1] {
+						if rq.Status != 200 && rq.Status != 304 {
+							viaFallback = true // an earlier upstream request of this exchange failed: this 200 was relayed directly
+						}
+					}
+					if viaFallback {
+						mustContactNext = true
+						break
 					}
 					st = &storedT{version: res.Version, etag: res.ETag, lm: res.LM, storedAt: now, expiresAt: now.Add(100 * time.Second)}
 					mustContactNext = false
